@@ -24,6 +24,12 @@ pub enum Case {
         extra: Vec<(u16, u8)>,
         cmds: Vec<RawCmd>,
         input: Vec<u8>,
+        /// 0: nothing; otherwise a crowd of breakpoints before the history: 15..18 / 31..34 /
+        /// 63..66 / 100 / 257 of them on consecutive words from the origin on, written as `.break`
+        /// lines (as far as there are statements) or added at run time in a scattered order;
+        /// the history is followed by further `continue`s
+        #[serde(default)]
+        crowd: u16,
     },
     /// `F call F` (a one-instruction loop) with a breakpoint on it, stepped `steps` times
     SelfCall { steps: Vec<u8>, predefined: bool },
@@ -31,8 +37,21 @@ pub enum Case {
 
 fn program_for(c: &Case) -> (Built, Vec<u8>) {
     match c {
-        Case::Generated { spec, extra, input, .. } => {
+        Case::Generated { spec, extra, input, crowd, .. } => {
             let mut built = proggen::build(spec);
+            if let Some((k, true)) = crowd_of(*crowd) {
+                // a `.break` before each of the first k statements
+                let mut out = Vec::new();
+                let mut left = k;
+                for l in built.program.lines.drain(..) {
+                    if left > 0 && matches!(l.body, Body::Stmt(_)) {
+                        out.push(Line { label: None, body: Body::Break });
+                        left -= 1;
+                    }
+                    out.push(l);
+                }
+                built.program.lines = out;
+            }
             let mut n = 0;
             for (sel, kind) in extra {
                 let pos = (*sel as usize * (built.program.lines.len() + 1)) >> 16;
@@ -69,8 +88,34 @@ fn program_for(c: &Case) -> (Built, Vec<u8>) {
     }
 }
 
+/// (number of breakpoints, written in the source?) of a crowd selector
+fn crowd_of(crowd: u16) -> Option<(usize, bool)> {
+    if crowd == 0 {
+        return None;
+    }
+    Some(([15usize, 16, 17, 18, 31, 32, 33, 34, 63, 64, 65, 66, 100, 257][crowd as usize % 14], (crowd / 14) % 2 == 1))
+}
+
 fn commands_for(c: &Case, p: &Prog) -> (Vec<Cmd>, Vec<u8>) {
-    let (raw_cmds, raw_aliases) = commands_for_raw(c, p);
+    let (mut raw_cmds, mut raw_aliases) = commands_for_raw(c, p);
+    if let Case::Generated { crowd, .. } = c {
+        if let Some((k, in_source)) = crowd_of(*crowd) {
+            // the breakpoints the source does not already hold, on consecutive words from the
+            // origin on, added in a scattered order (stride coprime to k)
+            let have = if in_source { p.breaks.len() } else { 0 };
+            let stride = [7usize, 11, 13, 17, 19, 23].into_iter().find(|s| k % s != 0).unwrap_or(1);
+            let mut pre: Vec<Cmd> = (0..k).map(|j| (j * stride) % k).filter(|j| *j >= have || !in_source).map(|j| Cmd::BreakAdd(crate::refdbg::Loc::Abs(p.orig.wrapping_add(j as u16), 0))).collect();
+            pre.push(Cmd::BreakList);
+            let np = pre.len();
+            pre.extend(raw_cmds);
+            pre.extend(std::iter::repeat(Cmd::Continue).take(k.min(40)));
+            raw_cmds = pre;
+            let mut al = vec![0u8; np];
+            al.extend(raw_aliases);
+            al.resize(raw_cmds.len(), 0);
+            raw_aliases = al;
+        }
+    }
     // expand the aliasing scenario: a breakpoint in the code plus one a power-of-two multiple of
     // 64 words away (anywhere in user space); the far one is removed again (or the near one is
     // removed and re-added); the breakpoint in the code must keep working
@@ -246,6 +291,12 @@ pub fn judge_case(c: &Case) -> Obs {
     if matches!(c, Case::SelfCall { .. }) {
         obs.label("one-instruction-loop");
     }
+    if let Case::Generated { crowd, .. } = c {
+        if let Some((k, in_source)) = crowd_of(*crowd) {
+            obs.label(if k <= 18 { "crowd-of-15-to-18-breakpoints" } else if k <= 66 { "crowd-of-31-to-66-breakpoints" } else { "crowd-of-100-or-257-breakpoints" });
+            obs.label(if in_source { "crowd-written-as-break-directives" } else { "crowd-added-at-run-time" });
+        }
+    }
     obs.nontrivial = hits >= 2 || (removed_predefined && model.dbg.executed > 0);
     match &out.stop {
         Stop::Returned => {}
@@ -320,8 +371,13 @@ pub fn judge_case(c: &Case) -> Obs {
 
 fn cases() -> impl Strategy<Value = Case> {
     crate::pick![
-        9 => (crate::pick![6 => proggen::prog_spec(20).boxed(), 1 => proggen::raw_image_spec(super::c03::image_words()).boxed()], prop::collection::vec((any::<u16>(), 0u8..3), 0..4), prop::collection::vec(raw_cmd(), 1..14), input_bytes())
-            .prop_map(|(spec, extra, cmds, input)| Case::Generated { spec, extra, cmds, input }),
+        9 => (crate::pick![6 => proggen::prog_spec(20).boxed(), 1 => proggen::raw_image_spec(super::c03::image_words()).boxed()], prop::collection::vec((any::<u16>(), 0u8..3), 0..4), prop::collection::vec(raw_cmd(), 1..14), input_bytes(), crate::pick![6 => Just(0u16), 1 => 1u16..=28])
+            .prop_map(|(spec, extra, mut cmds, input, crowd)| {
+                if crowd > 0 {
+                    cmds.truncate(6);
+                }
+                Case::Generated { spec, extra, cmds, input, crowd }
+            }),
         1 => (prop::collection::vec(any::<u8>(), 1..8), any::<bool>()).prop_map(|(steps, predefined)| Case::SelfCall { steps, predefined }),
     ]
 }
@@ -331,7 +387,7 @@ impl Prop for C11 {
         "C11"
     }
     fn rule(&self) -> &'static str {
-        "ProgGen programs with `.break` directives sprinkled by the generator plus 0-3 extra placements at any line position (before the first statement / .orig, between any two, after the last, doubled, on a labelled line), at default and non-default origins x histories of 1-13 commands over every resuming command, break add/remove (absolute, label+-offset, ^offset; extra weight on removing predefined ones), break list, the commands that move the PC while paused (goto, reset), and aliasing scenarios (a second breakpoint 64*2^k words away from one in the code, added and removed again); plus the one-instruction loop `F call F` with a breakpoint on it. \
+        "ProgGen programs with `.break` directives sprinkled by the generator plus 0-3 extra placements at any line position (before the first statement / .orig, between any two, after the last, doubled, on a labelled line), at default and non-default origins x histories of 1-13 commands over every resuming command, break add/remove (absolute, label+-offset, ^offset; extra weight on removing predefined ones), break list, the commands that move the PC while paused (goto, reset), aliasing scenarios (a second breakpoint 64*2^k words away from one in the code, added and removed again), and - a seventh of the sessions - a crowd of 15..18 / 31..34 / 63..66 / 100 / 257 breakpoints on consecutive words from the origin on (written as `.break` lines or added at run time in a scattered order) before a shorter history that is followed by up to 40 further `continue`s; plus the one-instruction loop `F call F` with a breakpoint on it. \
          Oracle: RefDbg — pause before the marked instruction, resuming executes it once, it fires again on the next arrival (also when that is the very next instruction), removed breakpoints never pause: registers/PC/CC after every command, full final snapshot, executed-instruction count; `.break` occupies no memory (image equals the encoding without it) and marks the next statement (addresses recorded by the assembler); every `break list` equals the model's sorted duplicate-free list. \
          Non-trivial: a breakpoint is hit at least twice in the session, or a predefined breakpoint is removed and execution continues. Distinct = hash(source, script, input)."
     }
